@@ -1,5 +1,6 @@
 import SFV.Driver.Json
 import SFV.Model.Param
+import SFV.Model.ParamDecomp
 /-! Driver handlers of the K5 model (ops `param.*`).  Expressions travel as JSON trees:
 `{"n":[p,q]}`, `{"f":name}`, `{"m":mode}`, `{"add":[a,b]}`, `{"mul":[a,b]}`, `{"neg":a}`,
 `{"pow":[a,b]}`, `{"fn":name,"a":[x]}` / `{"fn":name,"a":[x,y]}`.  Values are closed terms. -/
@@ -47,6 +48,9 @@ def asParam (j : Json) : R Param := do
   if let .ok v := j.getObjVal? "arr" then
     let a ← v.getArr?
     return .arr (← a.toList.mapM asScalar)
+  if let .ok v := j.getObjVal? "arr2" then
+    let a ← v.getArr?
+    return .arr2 (← a.toList.mapM fun row => do (← row.getArr?).toList.mapM asScalar)
   throw "bad param"
 
 def scalarJson : Scalar → Json
@@ -56,6 +60,7 @@ def scalarJson : Scalar → Json
 def paramJson : Param → Json
   | .one s => Json.mkObj [("one", scalarJson s)]
   | .arr xs => Json.mkObj [("arr", jarr (xs.map scalarJson))]
+  | .arr2 xss => Json.mkObj [("arr2", jarr (xss.map fun xs => jarr (xs.map scalarJson)))]
 
 /-- `[[key, [p,q]], …]` as a finite map to rationals -/
 def asStrTab (j : Json) : R (List (String × Rat)) := do
@@ -92,6 +97,7 @@ def errStr : PErr → String
 def pvalJson : PVal Expr → Json
   | .one v => Json.mkObj [("one", exprJson v)]
   | .arr vs => Json.mkObj [("arr", jarr (vs.map exprJson))]
+  | .arr2 vss => Json.mkObj [("arr2", jarr (vss.map fun vs => jarr (vs.map exprJson)))]
 
 def resJson (r : Except PErr (PVal Expr)) : Json :=
   match r with
